@@ -391,17 +391,19 @@ class StringDataType(ElementaryDataType):
 
     len_type = None  #: data type of the string length
     encoding = "iso-8859-1"  #: encoding of string data
+    char_size = 1  #: bytes per character of ``encoding``, the length counts characters
 
     @classmethod
     def _encode(cls, value: str, *args, **kwargs) -> bytes:
-        return cls.len_type.encode(len(value)) + value.encode(cls.encoding)
+        data = value.encode(cls.encoding)
+        return cls.len_type.encode(len(data) // cls.char_size) + data
 
     @classmethod
     def _decode(cls, stream: BytesIO) -> str:
         str_len = cls.len_type.decode(stream)
         if str_len == 0:
             return ""
-        str_data = cls._stream_read(stream, str_len)
+        str_data = cls._stream_read(stream, str_len * cls.char_size)
 
         return str_data.decode(cls.encoding)
 
@@ -524,6 +526,7 @@ class STRING2(StringDataType):
     code = 0xD5  #: 0xD5
     len_type = UINT
     encoding = "utf-16-le"
+    char_size = 2
 
 
 class FTIME(DINT):
